@@ -21,6 +21,9 @@ open CTV.Model.Scan
 
 namespace C16
 
+/-- a server used in boundary examples (content irrelevant) -/
+def exEnv0 : Env := { src := fun i => i, cls := fun _ _ => none }
+
 /-! ## regenerated arithmetic = model arithmetic -/
 
 /-- `genRanges`: while `start < end`, the loop runs, does not ask for a new STH, and sends the inclusive range
@@ -98,6 +101,37 @@ theorem flatten_index (lo j : Int) (h0 : 0 ≤ lo) (hj : 0 ≤ j) (h : lo + j < 
   simp only [Gen.flattenIndex, I64.add]
   rw [w j (by omega) (by omega), w _ (by omega) (by omega)]
 
+/-- the model's `resp` is the code's worker arithmetic: after `k` entries (1 ≤ k ≤ hi−lo) for the pending range `[lo, hi)` the
+worker's next state is decided by the regenerated loop test on the regenerated advance, the batch handed on starts at the
+regenerated batch start, and its `j`-th entry is labelled with the regenerated flatten index -/
+theorem resp_matches_code (e : Env) (s : St) (w lo hi k : Nat) (hw : s.workers[w]? = some (some (lo, hi)))
+    (hk1 : 1 ≤ k) (hk2 : lo + k ≤ hi) (hh : hi < 2^63) :
+    (step e s (.resp w k)).workers[w]? =
+      some (if Gen.workerMore (Gen.workerAdvance lo k) ((hi : Int) - 1) then some ((Gen.workerAdvance lo k).toNat, hi) else none) ∧
+    (step e s (.resp w k)).delivered = s.delivered ++ batchOf e.src (Gen.workerBatchStart lo).toNat k ∧
+    ∀ j, j < k → Gen.flattenIndex (Gen.workerBatchStart lo) j = ((lo + j : Nat) : Int) := by
+  have ha := worker_arith lo hi k (by omega) (by omega) (by omega) (by omega)
+  obtain ⟨_, _, hbs, hadv, hmore⟩ := ha
+  have hlen : w < s.workers.length := by
+    cases hl : s.workers[w]? with
+    | none => rw [hl] at hw; cases hw
+    | some _ => exact (List.getElem?_eq_some_iff.mp hl).1
+  refine ⟨?_, ?_, ?_⟩
+  · simp only [step, hw, hk1, hk2, and_self, if_true, deliver, getElem?_set_cases, hlen, and_self, if_true]
+    rw [hadv, hmore]
+    by_cases hlt : lo + k < hi
+    · have : ((lo : Int) + k < hi) := by omega
+      simp only [hlt, this, decide_true, if_true]
+      congr 2
+    · have : ¬ ((lo : Int) + k < hi) := by omega
+      simp [hlt, this]
+  · simp only [step, hw, hk1, hk2, and_self, if_true, deliver, hbs]
+    simp
+  · intro j hj
+    rw [hbs]
+    have := flatten_index lo j (by omega) (by omega) (by omega)
+    rw [this]; omega
+
 /-- `updateSTH` only ever accepts an STH that is strictly bigger than the current end (the guard of the model's
 `grow`), whatever the clock says, and then the new end is that tree size. -/
 theorem updateSTH_accepts_only_growth (treeSize endIndex batchSize : Int) (quick : Bool)
@@ -156,49 +190,39 @@ theorem at_most_once (e : Env) (start end_ batch workers matchers : Nat) (c : Bo
   have hc := h.count i
   have hs : s.start0 = start := (run_consts e _ ops).1
   have a := ite01 s.start0 s.end_ i
-  change cnt s.delivered i + pend s.workers i + inR s.cursor s.end_ i = inR s.start0 s.end_ i at hc
+  change cnt s.delivered i + pend s.workers i + acnt s.abandoned i + inR s.cursor s.end_ i = inR s.start0 s.end_ i at hc
   rw [hs] at a hc
   omega
 
 
-/-- **Exactly once.** Whenever no fetch is pending (in particular when `Run` has returned), every index between
-the start and the generator's cursor has been delivered exactly once and nothing else has; and if the scan was
-neither stopped nor cancelled and the generator has finished, the cursor has reached the end, so that is the whole
-range `[start, end)` — for any batch size, worker count, short-read lengths, error pattern and interleaving. -/
+/-- **Exactly once.** Whenever no fetch is pending (in particular when `Run` has returned), every index between the start
+and the generator's cursor is accounted for exactly once — delivered, or (only after the caller's context was cancelled)
+in a range a worker gave up; so without cancellation exactly `start … cursor−1` has been delivered, once each, and nothing
+else; and if the scan was neither stopped nor cancelled and the generator has finished, the cursor has reached the end, so
+that is the whole range `[start, end)` — for any batch size, worker count, short-read lengths, error pattern and
+interleaving. -/
 theorem exactly_once (e : Env) (start end_ batch workers matchers : Nat) (c : Bool) (ops : List Op)
     (hc : ops.all Op.inContract = true) :
     let s := run e (init start end_ batch workers matchers c) ops
-    (allIdle s.workers = true → ∀ i, cnt s.delivered i = inR start s.cursor i) ∧
+    (allIdle s.workers = true → ∀ i, cnt s.delivered i + acnt s.abandoned i = inR start s.cursor i) ∧
+    (allIdle s.workers = true → s.cancelled = false → ∀ i, cnt s.delivered i = inR start s.cursor i) ∧
     (allIdle s.workers = true → s.closed = true → s.stopReq = false → ∀ i, cnt s.delivered i = inR start s.end_ i) := by
   intro s
   have h := inv_reachable e start end_ batch workers matchers c ops hc
   have hs : s.start0 = start := (run_consts e _ ops).1
-  have key : allIdle s.workers = true → ∀ i, cnt s.delivered i + inR s.cursor s.end_ i = inR start s.end_ i := by
-    intro hi i
-    have hcount := h.count i
-    change cnt s.delivered i + pend s.workers i + inR s.cursor s.end_ i = inR s.start0 s.end_ i at hcount
-    rw [pend_allIdle s.workers i hi, hs] at hcount
-    omega
-  have hle := h.start_le
-  have hcl := h.cursor_le
-  change s.start0 ≤ s.cursor at hle
-  change s.cursor ≤ s.end_ ∨ s.cursor = s.start0 at hcl
-  rw [hs] at hle hcl
-  constructor
-  · intro hi i
-    have := key hi i
-    have a1 := ite01 s.cursor s.end_ i
-    have a2 := ite01 start s.end_ i
-    have a3 := ite01 start s.cursor i
-    omega
-  · intro hi hclosed hstop i
-    have := key hi i
-    have hok := h.closed_ok hclosed
-    change s.stopReq = true ∨ ¬ (s.cursor < s.end_) at hok
-    have a1 := ite01 s.cursor s.end_ i
-    rcases hok with hok | hok
-    · rw [hstop] at hok; cases hok
-    · omega
+  refine ⟨?_, ?_, ?_⟩
+  · intro hi i; have := (inv_idle e s h hi).1 i; rw [hs] at this; exact this
+  · intro hi hcan i
+    have := (inv_idle e s h hi).1 i
+    have hab : s.abandoned = [] := by
+      cases ha : s.abandoned with
+      | nil => rfl
+      | cons a t =>
+        have hne : s.abandoned ≠ [] := by rw [ha]; simp
+        have := h.aband_ok hne; rw [hcan] at this; cases this
+    rw [hs, hab] at this
+    simpa [acnt] using this
+  · intro hi hcl hst i; have := (inv_idle e s h hi).2.2 hcl hst i; rw [hs] at this; exact this
 
 /-- **Payload.** Whatever is delivered under index `i` is the server's entry for `i`. -/
 theorem payload_exact (e : Env) (start end_ batch workers matchers : Nat) (c : Bool) (ops : List Op)
@@ -206,27 +230,27 @@ theorem payload_exact (e : Env) (start end_ batch workers matchers : Nat) (c : B
     (h : (i, p) ∈ (run e (init start end_ batch workers matchers c) ops).delivered) : p = e.src i :=
   (inv_reachable e start end_ batch workers matchers c ops hc).payload (i, p) h
 
-/-- **Termination.** The measure `4·(end−cursor) + 3·(entries pending at workers) + 2·|queue| + busy matchers + [generator alive]`
-drops on every enabled progress step (hand, response, close, take, process), is untouched by errors, `Stop` and
-cancellation, and rises only by `4·growth` when the log grows. Hence along any schedule the number of progress
-steps is bounded by the initial measure plus four times the growth of the log … -/
+/-- **Termination.** The measure `5·(end−cursor) + 3·(entries pending at workers) + busy workers + 2·|queue| + busy matchers + [generator alive]`
+drops on every enabled progress step (hand, response, give-up after cancellation, close, take, process), is untouched by
+errors, `Stop` and cancellation, and rises only by `5·growth` when the log grows. Hence along any schedule the number of
+progress steps is bounded by the initial measure plus five times the growth of the log … -/
 theorem terminates (e : Env) (start end_ batch workers matchers : Nat) (c : Bool) (ops : List Op)
     (hc : ops.all Op.inContract = true) :
     let s0 := init start end_ batch workers matchers c
-    progressCount e s0 ops + scanMeasure (run e s0 ops) ≤ 4 * (end_ - start) + 1 + 4 * ((run e s0 ops).end_ - end_) := by
+    progressCount e s0 ops + scanMeasure (run e s0 ops) ≤ 5 * (end_ - start) + 1 + 5 * ((run e s0 ops).end_ - end_) := by
   intro s0
   have h := run_measure e s0 ops hc
-  have hm : scanMeasure s0 = 4 * (end_ - start) + 1 := by
+  have hm : scanMeasure s0 = 5 * (end_ - start) + 1 := by
     simp [s0, scanMeasure, init, remaining_replicate_none, busy_replicate_none]
   have he : s0.end_ = end_ := rfl
   rw [hm, he] at h
   exact h
 
-/-- … and a one-shot scan (not continuous) makes at most `4·(end−start) + 1` progress steps under any schedule:
-it cannot run forever, whatever the errors and short reads. -/
+/-- … and a one-shot scan (not continuous) makes at most `5·(end−start) + 1` progress steps under any schedule:
+it cannot make progress forever, whatever the errors and short reads. -/
 theorem terminates_oneshot (e : Env) (start end_ batch workers matchers : Nat) (ops : List Op)
     (hc : ops.all Op.inContract = true) :
-    progressCount e (init start end_ batch workers matchers false) ops ≤ 4 * (end_ - start) + 1 := by
+    progressCount e (init start end_ batch workers matchers false) ops ≤ 5 * (end_ - start) + 1 := by
   have h := terminates e start end_ batch workers matchers false ops hc
   have he := run_end_fixed e (init start end_ batch workers matchers false) ops rfl
   simp only at h
@@ -254,6 +278,42 @@ theorem never_stuck (e : Env) (start end_ batch workers matchers : Nat) (c : Boo
   · rw [hk.2.2.2.2]; simpa [init] using hm
   · rw [hk.2.1]; simpa [init] using hb
 
+/-- **Cancellation terminates the fetch without the server.** In any reachable state in which the caller's context has been
+cancelled, at most `measure` steps consisting only of workers giving up (`abandon`) and the generator exiting (`close`) —
+no answer from the log is needed, so this holds against a dead or permanently failing server — lead to a state where the
+generator is closed and no worker holds a range: `Fetcher.Run` returns. -/
+theorem cancel_terminates (e : Env) (start end_ batch workers matchers : Nat) (c : Bool) (ops : List Op)
+    (hc : ops.all Op.inContract = true) :
+    let s := run e (init start end_ batch workers matchers c) ops
+    s.cancelled = true →
+    ∃ fin : List Op, fin.all Op.isGiveUp = true ∧ fin.length ≤ scanMeasure s ∧
+      (run e s fin).closed = true ∧ allIdle (run e s fin).workers = true := by
+  intro s hcan
+  exact cancel_terminates_aux e (scanMeasure s) s (inv_reachable e start end_ batch workers matchers c ops hc) hcan (Nat.le_refl _)
+
+/-- `abandon` is possible only after cancellation: `Stop` alone never makes a worker drop its range … -/
+theorem abandon_only_after_cancel (e : Env) (s : St) (w : Nat) (h : s.cancelled = false) : step e s (.abandon w) = s := by
+  simp only [step]
+  split
+  · simp [h]
+  · rfl
+
+/-- … so **`Stop` does not terminate a fetch against a server that never answers** (declared boundary, it is what the code does:
+`Stop` cancels only the range generator, `runWorker` retries "until the context is cancelled"): after `Stop`, with a worker
+holding a range and only errors coming back, the fetch is not finished after any number of errors. The property's
+"terminates when stopped" therefore presupposes a server that eventually answers (`never_stuck`: the enabled step is `resp`). -/
+theorem stop_needs_answers (n : Nat) :
+    quiescent (run exEnv0 (run exEnv0 (init 0 4 2 1 1 false) [.hand 0, .stop, .close]) (List.replicate n (.err 0))) = false := by
+  have hfix : ∀ n, run exEnv0 (run exEnv0 (init 0 4 2 1 1 false) [.hand 0, .stop, .close]) (List.replicate n (.err 0))
+      = run exEnv0 (init 0 4 2 1 1 false) [.hand 0, .stop, .close] := by
+    intro n
+    induction n with
+    | zero => rfl
+    | succ n ih =>
+      show run exEnv0 (step exEnv0 (run exEnv0 (init 0 4 2 1 1 false) [.hand 0, .stop, .close]) (.err 0)) (List.replicate n (.err 0)) = _
+      exact ih
+  rw [hfix n]; decide
+
 /-- **Continuous mode: no gaps, no repeats.** However the log grows between STHs (`grow` ops at any point the code
 allows), nothing is delivered twice, and whenever the workers are idle exactly the indices `start … cursor−1` have been
 delivered — the scan has no hole behind its cursor — while the end only moves forward. -/
@@ -261,23 +321,24 @@ theorem continuous_no_gap (e : Env) (start end_ batch workers matchers : Nat) (o
     (hc : ops.all Op.inContract = true) :
     let s := run e (init start end_ batch workers matchers true) ops
     end_ ≤ s.end_ ∧ (∀ i, cnt s.delivered i ≤ 1) ∧
-    (allIdle s.workers = true → ∀ i, cnt s.delivered i = inR start s.cursor i) := by
+    (allIdle s.workers = true → s.cancelled = false → ∀ i, cnt s.delivered i = inR start s.cursor i) := by
   intro s
   refine ⟨end_mono_run e (init start end_ batch workers matchers true) ops hc, ?_, ?_⟩
   · intro i; exact (at_most_once e start end_ batch workers matchers true ops hc i).1
-  · exact (exactly_once e start end_ batch workers matchers true ops hc).1
+  · exact (exactly_once e start end_ batch workers matchers true ops hc).2.1
 
-/-- **Callbacks.** When the matcher stage has drained (and no fetch is pending), callback `b` (certificate / precertificate)
+/-- **Callbacks.** When the matcher stage has drained (no fetch is pending, the context was not cancelled — after a
+cancellation the same holds with "delivered" in place of "in the range", by `Inv.stage2`), callback `b` (certificate / precertificate)
 has been invoked on entry `(i, p)` exactly once if `i` lies in the delivered range, `p` is the server's entry for `i` and
 the matcher selects `b` for it — and never otherwise: no entry is lost between fetcher and callback, none is reported
 twice, none to the wrong callback. -/
 theorem callback_once_per_match (e : Env) (start end_ batch workers matchers : Nat) (c : Bool) (ops : List Op)
     (hc : ops.all Op.inContract = true) :
     let s := run e (init start end_ batch workers matchers c) ops
-    allIdle s.workers = true → s.queue = [] → allIdle s.matchers = true →
+    allIdle s.workers = true → s.cancelled = false → s.queue = [] → allIdle s.matchers = true →
     ∀ b i p, wsum (indC b (i, p)) s.called
       = if e.cls i p = some b ∧ p = e.src i then inR start s.cursor i else 0 := by
-  intro s hw hq hm b i p
+  intro s hw hcan hq hm b i p
   have h := inv_reachable e start end_ batch workers matchers c ops hc
   have h2 := h.stage2 b (i, p)
   change wsum (indC b (i, p)) s.called + osum (ind e b (i, p)) s.matchers + wsum (ind e b (i, p)) s.queue
@@ -285,7 +346,7 @@ theorem callback_once_per_match (e : Env) (start end_ batch workers matchers : N
   rw [osum_allIdle _ _ hm, hq] at h2
   simp only [wsum, Nat.add_zero] at h2
   rw [h2, wsum_ind, wsum_pair e.src s.delivered h.payload i p]
-  have hx := (exactly_once e start end_ batch workers matchers c ops hc).1 hw i
+  have hx := (exactly_once e start end_ batch workers matchers c ops hc).2.1 hw hcan i
   change cnt s.delivered i = inR start s.cursor i at hx
   rw [hx]
   by_cases h1 : e.cls i p = some b <;> by_cases h2 : p = e.src i <;> simp [h1, h2]
@@ -305,7 +366,7 @@ example : exOps.all Op.inContract = true := by decide
 example : quiescent (run exEnv (init 2 7 2 2 1 false) exOps) = true := by decide
 example : (run exEnv (init 2 7 2 2 1 false) exOps).delivered.map Prod.fst = [4, 2, 3, 5, 6] := by decide
 example : (run exEnv (init 2 7 2 2 1 false) exOps).called = [(false, (4, 104)), (true, (3, 103)), (false, (2, 102)), (false, (6, 106))] := by decide
-example : progressCount exEnv (init 2 7 2 2 1 false) exOps = 18 ∧ 18 ≤ 4 * (7 - 2) + 1 := by decide
+example : progressCount exEnv (init 2 7 2 2 1 false) exOps = 18 ∧ 18 ≤ 5 * (7 - 2) + 1 := by decide
 /-- `Stop` in the middle: the pending batch is finished, the rest of the range is not started, nothing twice -/
 example : (run exEnv (init 0 9 3 1 1 false) [.hand 0, .stop, .resp 0 2, .close, .resp 0 1]).delivered.map Prod.fst = [0, 1, 2]
     ∧ (run exEnv (init 0 9 3 1 1 false) [.hand 0, .stop, .resp 0 2, .close, .resp 0 1]).cursor = 3 := by decide
@@ -341,6 +402,13 @@ example : Gen.genRangesAtEnd 6 6 = true ∧ Gen.genRangesAtEnd 8 6 = true ∧ Ge
 /-- start beyond the end of the tree, in the model: nothing is handed out until the log has grown past the start, and then
 only indices from the start on are delivered -/
 example : (run exEnv (init 8 5 2 1 1 true) [.hand 0, .grow 6, .hand 0, .grow 9, .hand 0, .resp 0 1]).delivered.map Prod.fst = [8] := by decide
+/-- **Domain boundary 4**: tree sizes of 2^63 and more are outside the domain of every theorem above (hypotheses `< 2^63`):
+`int64(sth.TreeSize)` wraps, `Prepare` then sets a negative end index (nothing is fetched, the scan "completes") and
+`updateSTH` would store a negative end. No log is that large; the model's indices are `Nat`. -/
+example : Gen.updateSTHNewEnd (2^63) = -(2^63) ∧ Gen.prepareResets (2^63) 0 = true ∧ Gen.genRangesMore 0 (Gen.updateSTHNewEnd (2^63)) false = false := by decide
+/-- cancellation mid-range against a dead server: two workers hold ranges, nothing ever answers; giving up + close ends the fetch -/
+example : quiescent (run exEnv (init 0 8 2 2 0 false) [.hand 0, .hand 1, .err 0, .cancel, .err 1, .abandon 0, .abandon 1, .close]) = true
+    ∧ (run exEnv (init 0 8 2 2 0 false) [.hand 0, .hand 1, .err 0, .cancel, .err 1, .abandon 0, .abandon 1, .close]).abandoned = [(2, 4), (0, 2)] := by decide
 example : Gen.genRangesBatchEnd 6 7 1000 = 7 ∧ Gen.genRangesNext 6 7 = (6, 6) := by decide
 example : Gen.updateSTHRejects 10 10 1010 false = true ∧ Gen.updateSTHRejects 11 10 1010 true = true ∧ Gen.updateSTHRejects 11 10 1010 false = false := by decide
 example : Gen.prepareResets 50 0 = true ∧ Gen.prepareResets 50 60 = true ∧ Gen.prepareResets 50 40 = false := by decide
